@@ -671,6 +671,119 @@ var intrinsics = map[string]intrinsic{
 	},
 }
 
+func init() {
+	intrinsics["fmt.Sprintf"] = sprintfIntrinsic
+}
+
+// sprintfIntrinsic expands fmt.Sprintf with a constant format whose verbs are %s (string operand), %d / %03d
+// (integer operand) into a concatenation of literal pieces and fmt_d/fmt_du/fmt_03d atoms; anything else is opaque.
+func sprintfIntrinsic(e *Engine, fr *Frame, st *State, args []*Val, pos token.Pos) (*Val, error) {
+	opaque := func(why string) (*Val, error) {
+		e.warnf("%s: fmt.Sprintf at %s modelled as an opaque string (%s)", fr.fn, e.posStr(pos), why)
+		v := &Val{T: st.fresh("sprintf", sStr), S: sStr, Typ: types.Typ[types.String]}
+		st.assume(e.wfVal(st, v.T, sStr))
+		return v, nil
+	}
+	format := ""
+	found := false
+	for lit, name := range e.reg.strLits {
+		if name == args[0].T {
+			format, found = lit, true
+		}
+	}
+	if args[0].T == "empty_str" {
+		found = true
+	}
+	if !found {
+		return opaque("format is not a constant")
+	}
+	// operands: elements of the varargs slice, recovered through executor-level facts
+	var ops []*Val
+	if len(args) > 1 && args[1].HasCLen {
+		key := e.keyElem(sIface)
+		ref := ""
+		fmt.Sscanf(args[1].T, "(mkSlice %s", &ref)
+		// the ref may itself contain spaces, e.g. "(- 3)"
+		if strings.HasPrefix(args[1].T, "(mkSlice (") {
+			end := strings.Index(args[1].T[9:], ")")
+			ref = args[1].T[9 : 9+end+1]
+		}
+		for i := 0; i < args[1].CLen; i++ {
+			f, ok := st.facts[key+"@"+ref+"@"+bvLit(uint64(i), 64)]
+			if !ok || f.Box == nil {
+				return opaque("operand not traceable")
+			}
+			ops = append(ops, f)
+		}
+	}
+	res := "empty_str"
+	lit := ""
+	flush := func() {
+		if lit != "" {
+			res = e.strCat(st, res, e.reg.strLit(lit))
+			lit = ""
+		}
+	}
+	oi := 0
+	for i := 0; i < len(format); i++ {
+		c := format[i]
+		if c != '%' {
+			lit += format[i : i+1]
+			continue
+		}
+		if i+1 < len(format) && format[i+1] == '%' {
+			lit += "%"
+			i++
+			continue
+		}
+		verb := ""
+		switch {
+		case strings.HasPrefix(format[i:], "%s"):
+			verb = "%s"
+		case strings.HasPrefix(format[i:], "%d"):
+			verb = "%d"
+		case strings.HasPrefix(format[i:], "%03d"):
+			verb = "%03d"
+		default:
+			return opaque("unsupported verb in " + strconvQuote(format))
+		}
+		if oi >= len(ops) {
+			return opaque("too few operands")
+		}
+		op := ops[oi]
+		oi++
+		flush()
+		switch verb {
+		case "%s":
+			if op.Box.S != sStr {
+				return opaque("%s operand is not a string")
+			}
+			res = e.strCat(st, res, op.Box.T)
+		case "%d", "%03d":
+			if bvWidth(op.Box.S) == 0 {
+				return opaque("%d operand is not an integer")
+			}
+			x := e.toBV64(op.Box, op.Dyn)
+			f := "fmt_du"
+			if isSigned(op.Dyn) {
+				f = "fmt_d"
+			}
+			if verb == "%03d" {
+				f = "fmt_03d"
+			}
+			res = e.strCat(st, res, "("+f+" "+x+")")
+		}
+		i += len(verb) - 1
+	}
+	flush()
+	if oi != len(ops) {
+		return opaque("operand count mismatch")
+	}
+	return &Val{T: res, S: sStr, Typ: types.Typ[types.String]}, nil
+}
+
+func strconvQuote(s string) string { return fmt.Sprintf("%q", s) }
+
 // flatComparable: sorts on which SMT equality coincides with reflect.DeepEqual.
 func (e *Engine) flatComparable(s string) bool {
 	switch s {
